@@ -224,7 +224,8 @@ Render(f, n) ==
 \* group and entity families (2^40 steps); the linear families are bounded by what a caller may
 \* hand to a parser and for which a quadratic algorithm still finishes well within the limit (the
 \* property forbids exponential time, not quadratic): 20 000 nested elements or parentheses, 50 000
-\* characters, 10 000 children, 1 000 attributes / references, a chain of 500 entities.
+\* characters, 10 000 children, 1 000 attributes / references, a chain of 9 000 entities (like nested elements: each
+\* level is one declaration of some 25 characters).
 MaxN(f) ==
   CASE f \in {"Deep", "DeepMixed", "Parens", "Unclosed", "Mismatch"} -> 20000
     [] f \in {"ManyEntities", "ManyAttlists"} -> 500
@@ -234,7 +235,7 @@ MaxN(f) ==
     [] f = "ManyRefs" -> 1000
     [] f \in {"GroupsL", "GroupsR", "SeqGroupsL", "SeqGroupsR", "MixGroupsL"} -> 40
     [] f \in {"CycleContent", "CycleAttr"} -> 40
-    [] f \in {"ChainContent", "ChainAttr"} -> 500
+    [] f \in {"ChainContent", "ChainAttr"} -> 9000
     [] f = "Laughs" -> 12
     [] f = "LaughsUnused" -> 40
     [] f = "Odd" -> Len(OddDocs)
